@@ -58,6 +58,20 @@ def cfgAny (feats : List Text) (ptrWidth : Text) : List Cfg → Bool
   | c :: cs => cfgEval feats ptrWidth c || cfgAny feats ptrWidth cs
 end
 
+mutual
+/-- the feature names a cfg predicate mentions -/
+def cfgFeats : Cfg → List Text
+  | .feature n => [n]
+  | .kv _ _ => []
+  | .flag _ => []
+  | .not c => cfgFeats c
+  | .all cs => cfgFeatsL cs
+  | .any cs => cfgFeatsL cs
+def cfgFeatsL : List Cfg → List Text
+  | [] => []
+  | c :: cs => cfgFeats c ++ cfgFeatsL cs
+end
+
 /-- the gate feature of a module whose gate is the plain `cfg(feature = "f")` -/
 def gateFeature : Cfg → Option Text
   | .feature n => some n
